@@ -15,8 +15,7 @@ RULE = ('same recipe generator and systematic sweep as C01, plus JSON stress '
         'Non-trivial = at least one content section; distinct = recipe '
         'fingerprint.')
 FLOOR = {'quick': 2000, 'thorough': 50000}
-REQUIRED_REACH = ['DiffXWriter._write_section_header',
-                  'DiffXWriter._prepare_content']
+REQUIRED_REACH = ['writer.py:']
 ASSUMPTIONS = [
     'oracle serializer + scanner are faithful readings of docs/spec '
     '(section-format.rst, sections.rst, encodings.rst)',
